@@ -186,10 +186,117 @@ def run_C08(ctx, proof_ok):
                          "G, C, D, truncation, pruning, batch shapes)")
 
 
+def run_diff(ctx, stream, select, ncorr, nsearch, second=True, plain_ops=False):
+    """bookkeeping correspondence (model vs epgpy partial dictionaries after every operator, mirror and
+    accumulation-form models) + jet-specification search; `select(problem_label)` keeps the problems
+    that belong to the property being checked"""
+    import diffc
+
+    E = epg()
+    r = lib.rng(stream)
+    corpus = [decode_case(c) for c in load_corpus(ctx.prop)]
+    free = [diffc.gen_case_free(r, maxlen=budget(ctx.tier, 8, 16), plain=False) for _ in range(ncorr)]
+    n1, dis1 = diffc.compare_bookkeeping(free, E)
+    cons = [c for c in corpus if "vars" in c] + [
+        diffc.gen_case_consistent(r, maxlen=budget(ctx.tier, 8, 14), plain_ops=plain_ops, second=second)
+        for _ in range(nsearch)]
+    n2, dis2 = diffc.compare_jets(cons, E)
+    raised = collections.Counter()
+    kept = 0
+    for d in dis1 + dis2:
+        if d["kind"] == "epgpy-raised":
+            raised[d["error"][:60]] += 1
+            d = dict(d, problems=[("raised: " + d["error"][:80],)])
+        probs = [p for p in d.get("problems", []) if select(str(p[0]))]
+        if not probs:
+            continue
+        kept += 1
+        ctx.violations.append(dict(d, problems=probs))
+    forms = collections.Counter()
+    nontriv = set()
+    for c in free + cons:
+        ks = set()
+        for o in c["program"]:
+            dcl = o.get("decl")
+            if dcl:
+                forms["order1:" + type(dcl.get("order1")).__name__ + ("/coeff" if isinstance(dcl.get("order1"), dict) and any(isinstance(v, dict) for v in dcl["order1"].values()) else "")] += 1
+                if "order2" in dcl:
+                    forms["order2:" + type(dcl.get("order2")).__name__] += 1
+                ks.add(o["op"])
+        if len(ks) >= 2:
+            nontriv.add(case_hash(c))
+    return {"evaluations": n1 + n2, "distinct_nontrivial": len(nontriv),
+            "rule": "bookkeeping correspondence on programs with arbitrary declarations in every documented form "
+                    "(partial dictionaries compared after every operator, both model forms) + search on consistent programs "
+                    "(auto / explicit mode of C03's quantifier): epgpy partial state matrices and Jacobian/Hessian probes vs "
+                    "the jet specification (plain model run at second-order jets); non-trivial = declarations on at least two "
+                    "operator kinds; distinct by SHA-1",
+            "samples": [lib.jsonable(c) for c in (free[:1] + cons[:1])],
+            "distribution": {"declaration_forms": dict(forms), "epgpy_raised": dict(raised),
+                             "bookkeeping_checks": n1, "jet_checks": n2, "disagreements_for_this_property": kept}}
+
+
+def sel_first(label):
+    return label.startswith(("d/d", "Jacobian", "order1", "states", "signal", "internal: order1", "raised: MutatedInput"))
+
+
+def sel_second(label):
+    return label.startswith(("d2/", "H[", "Hessian", "order2", "internal: order2", "internal: accumulation", "raised: TypeError"))
+
+
+def run_C02(ctx, proof_ok):
+    res = run_diff(ctx, 2, sel_first, budget(ctx.tier, 250, 4000), budget(ctx.tier, 250, 4000))
+    import diffc
+
+    probes = diffc.probe_F1(epg())
+    ctx.violations.extend(probes)
+    res["distribution"]["F1_probe_hits"] = len(probes)
+    return res
+
+
+def run_C03(ctx, proof_ok):
+    return run_diff(ctx, 3, sel_second, budget(ctx.tier, 250, 4000), budget(ctx.tier, 300, 5000))
+
+
+def run_C19(ctx, proof_ok):
+    res = run_diff(ctx, 19, lambda l: l.startswith(("signal", "states")), budget(ctx.tier, 150, 2000), budget(ctx.tier, 100, 2000))
+    import diffc
+
+    E = epg()
+    r = lib.rng(1900)
+    n, dis = diffc.compare_subsets([diffc.gen_case_consistent(r, maxlen=8) for _ in range(budget(ctx.tier, 120, 3000))], E)
+    ctx.violations.extend(dis)
+    res["evaluations"] += n
+    res["distribution"]["subset_runs"] = n
+    res["rule"] += " || subset search: every consistent program is re-run with each single variable activated alone, with " \
+                   "all declarations removed, and with variables renamed; signals compared bit-for-bit, columns to 1e-12"
+    return res
+
+
+def replay_diff(ctx, data):
+    import diffc
+
+    case = decode_case(data["input"])
+    E = epg()
+    out = []
+    if "vars" in case:
+        _, dd = diffc.compare_jets([case], E)
+        out += dd
+    _, dd = diffc.compare_bookkeeping([case], E)
+    out += dd
+    for d in out:
+        print("still disagrees:", d["kind"], d.get("problems", d.get("error")))
+    print("replay:", "VIOLATION reproduced" if out else "no disagreement any more")
+    return 1 if out else 0
+
+
 # ---------------------------------------------------------------------------
 # known findings: predicates keyed by finding id (the committed file lists which are active)
 
-KNOWN_PREDICATES = {}
+KNOWN_PREDICATES = {
+    # F1: a plain (non-Diff) operator applied to a state matrix that carries partial derivatives
+    "F1": lambda v: v.get("kind") == "F1-probe",
+}
 
 
 def match_known(prop, violation, known):
@@ -251,5 +358,19 @@ PROPS["C08"] = {
     "partial": ["the theorem covers the 1-D state model (T, Phi, E, P, R, 1-D shift with truncation, Spoiler, Reset, PD, Wait); "
                 "n-D / gridded shifts, D and X are covered by the search on the real code only"],
 }
+
+DIFF_PARTIAL = ["end-to-end HasDerivAt statement for whole programs is not proved in this revision: proved are (i) every "
+                "coefficient's symbolic derivative is its derivative, (ii) regenerated tables = symbolic derivatives, (iii) the "
+                "dictionary bookkeeping accumulates the chain-rule terms exactly once; the composition of the three is exercised "
+                "by the jet-specification search"]
+for _p, _run, _tie in (("C02", run_C02, TIE_OP + TIE_D1), ("C03", run_C03, TIE_OP + TIE_D1 + TIE_D2), ("C19", run_C19, TIE_OP)):
+    PROPS[_p] = {
+        "lean_modules": [f"EpgVerif.Props.{_p}"],
+        "tie": _tie,
+        "audit": f"EpgVerif/Audit/{_p}.lean",
+        "run": _run,
+        "replay": replay_diff,
+        "partial": DIFF_PARTIAL,
+    }
 
 NOT_CLAIMED = {}
